@@ -1921,6 +1921,7 @@ impl Server {
                     })
                     .into(),
                 ));
+                return;
             }
             Some(RequestType::SetMaxConnectionsPerIp(limit)) => {
                 let mut sessions = self.sessions.borrow_mut();
@@ -2084,6 +2085,7 @@ impl Server {
                 notify_response = Some(udp_proxy_response);
             }
         }
+        let answered_by_proxies = notify_response.is_some();
         if let Some(response) = notify_response {
             push_queue(response);
         }
@@ -2138,7 +2140,16 @@ impl Server {
             Some(RequestType::DeactivateListener(ref deactivate)) => {
                 push_queue(self.notify_deactivate_listener(&req_id, deactivate));
             }
-            _other_request => {}
+            _other_request => {
+                // every request gets exactly one final answer: a request type
+                // no proxy and no worker-level handler knows is refused, not ignored
+                if !answered_by_proxies {
+                    push_queue(worker_response_error(
+                        req_id,
+                        "unsupported request type for a worker",
+                    ));
+                }
+            }
         };
     }
 
